@@ -1,16 +1,49 @@
 """MEMO: state that survives a call (caches, mutable defaults).
 
-Generic rule used by several properties: inside the functions a property
-is anchored in (and everything they reach) a value may only be remembered
-across calls if the memo key covers every input of the cached computation
-and the cached object is never mutated by its consumers.
+Generic rule used by every property: inside the functions a property is
+anchored in (and everything they reach) a value may only be remembered
+across calls if remembering it cannot change a later call's result.
+
+Three carriers of cross-call state are recognised, each with the condition
+under which it is *harmful* (only then a finding is reported):
+
+* a **mutable default argument** - harmful when the function changes the
+  default object in place (a container update event rooted in the parameter,
+  through any alias) or lets it escape (returned, yielded, stored into an
+  attribute / container, handed to another call).  A mutable default that is
+  only read is not state.
+* a **cache decorator** (lru_cache, cache, memoize ...) - the key is the
+  whole argument list, so it is harmful only when the function is not a
+  function of its arguments (draws from a random generator, reads mutable
+  module state or attributes of ``self``), or when a caller changes the
+  returned object in place (the cached object is shared).
+* a **module-level container written from inside a function** (a hand-made
+  cache or registry) - harmful as soon as it is written: the key of a
+  hand-made cache need not cover the inputs, and its content outlives the
+  call.  Aliases (``tab = TABLE; tab[k] = v``, ``cols = COLUMNS; cols +=
+  extra``) are followed through the value terms.
 """
 
 from __future__ import annotations
 
 import ast
 
+from .cfg import CFG
 from .core import walk_own
+from .defuse import DefUse, Terms, walk_term
+from .events import container_events
+
+_CTORS = ("dict", "list", "set", "defaultdict", "OrderedDict",
+          "collections.defaultdict", "collections.OrderedDict", "deque",
+          "collections.deque", "Counter", "collections.Counter")
+_INPLACE_AUG = (ast.Add, ast.BitOr, ast.BitAnd, ast.Sub, ast.BitXor,
+                ast.Mult)
+
+
+def _is_mutable_display(d):
+    return isinstance(d, (ast.Dict, ast.List, ast.Set, ast.ListComp,
+                          ast.DictComp, ast.SetComp)) or (
+        isinstance(d, ast.Call) and ast.unparse(d.func) in _CTORS)
 
 
 def mutable_defaults(func):
@@ -19,10 +52,7 @@ def mutable_defaults(func):
     if isinstance(func.node, ast.Lambda):
         return out
     for name, d in func.defaults().items():
-        if isinstance(d, (ast.Dict, ast.List, ast.Set)) or (
-                isinstance(d, ast.Call) and ast.unparse(d.func) in (
-                    "dict", "list", "set", "defaultdict", "OrderedDict",
-                    "collections.defaultdict")):
+        if _is_mutable_display(d):
             out.append((name, d))
     return out
 
@@ -34,62 +64,190 @@ def cache_decorators(func):
             if "lru_cache" in d or d.endswith("cache") or "memoize" in d]
 
 
-def module_state_writes(prog, func):
-    """Stores into module-level mutable objects from inside ``func``:
-    [(global name, node)]."""
+def _roots(t):
+    """Leaf objects a container term may be (through stores, mutations,
+    subscripts, phis and conditional expressions)."""
     out = []
-    mod = func.module
-    mutable_globals = {
-        n for n, v in mod.assigns.items()
-        if isinstance(v, (ast.Dict, ast.List, ast.Set)) or (
-            isinstance(v, ast.Call) and ast.unparse(v.func) in (
-                "dict", "list", "set", "defaultdict",
-                "collections.defaultdict", "OrderedDict"))
-    }
-    if not mutable_globals or isinstance(func.node, ast.Lambda):
-        return out
-    local = set()
-    for n in walk_own(func.node):
-        if isinstance(n, ast.Name) and isinstance(n.ctx, ast.Store):
-            local.add(n.id)
-    local |= {p.lstrip("*") for p in func.params}
-    for n in walk_own(func.node):
-        tgt = None
-        if isinstance(n, (ast.Assign, ast.AugAssign)):
-            ts = n.targets if isinstance(n, ast.Assign) else [n.target]
-            for t in ts:
-                if isinstance(t, ast.Subscript) and isinstance(
-                        t.value, ast.Name):
-                    tgt = t.value.id
-        elif isinstance(n, ast.Call) and isinstance(n.func, ast.Attribute) \
-                and n.func.attr in ("append", "add", "update", "setdefault",
-                                    "extend", "pop", "clear") and isinstance(
-                                        n.func.value, ast.Name):
-            tgt = n.func.value.id
-        if tgt and tgt in mutable_globals and tgt not in local:
-            out.append((tgt, n))
+    seen = set()
+
+    def rec(x):
+        if not isinstance(x, tuple) or not x or id(x) in seen:
+            return
+        seen.add(id(x))
+        k = x[0]
+        if k in ("mutsub", "mut", "store", "augstore", "setattr", "sub",
+                 "attr", "delitem") and len(x) > 1 and isinstance(
+                     x[1], tuple):
+            rec(x[1])
+        elif k == "phi":
+            for a in x[1]:
+                rec(a)
+        elif k == "ifexp":
+            rec(x[2])
+            rec(x[3])
+        elif k == "var":
+            out.append(x)
+        else:
+            out.append(x)
+    rec(t)
     return out
 
 
+def _analysis(prog, func):
+    du = DefUse(prog, func)
+    T = Terms(du)
+    cfg = CFG(func.node)
+    return du, T, cfg
+
+
+def _update_events(func, T, cfg):
+    """container events plus in-place augmented assignments to a name."""
+    evs = [(e.recv, e.node, e.kind) for e in container_events(
+        func.node, T, cfg)]
+    for n in walk_own(func.node):
+        if isinstance(n, ast.AugAssign) and isinstance(
+                n.target, ast.Name) and isinstance(n.op, _INPLACE_AUG):
+            try:
+                evs.append((T.of(n.target), n, "aug"))
+            except Exception:
+                pass
+    return evs
+
+
+def _mutable_globals(mod):
+    return {n for n, v in mod.assigns.items() if _is_mutable_display(v)}
+
+
+def module_state_writes(prog, func):
+    """In-place changes of module-level mutable objects from inside
+    ``func`` (directly or through a local alias): [(global name, node)]."""
+    out = []
+    if isinstance(func.node, ast.Lambda):
+        return out
+    # any module of the package may own the object (imported constants)
+    owners = {}
+    for m in prog.modules.values():
+        for g in _mutable_globals(m):
+            owners[f"{m.name}.{g}"] = g
+    if not owners:
+        return out
+    try:
+        _du, T, cfg = _analysis(prog, func)
+    except Exception:
+        return out
+    local = {p.lstrip("*") for p in func.params}
+    for n in walk_own(func.node):
+        if isinstance(n, ast.Name) and isinstance(n.ctx, ast.Store):
+            local.add(n.id)
+    own = _mutable_globals(func.module)
+    for recv, node, _kind in _update_events(func, T, cfg):
+        for r in _roots(recv):
+            if r[0] == "name" and r[1] in owners:
+                out.append((owners[r[1]], node))
+            elif r[0] in ("rec", "var", "free") and isinstance(
+                    r[1], str) and r[1] in own and r[1] not in local:
+                # loop-carried view of the module object itself
+                out.append((r[1], node))
+    return out
+
+
+def default_is_state(prog, func, pname):
+    """Why the mutable default of ``pname`` is cross-call state, or None."""
+    try:
+        du, T, cfg = _analysis(prog, func)
+    except Exception:
+        return "function not analysable"
+    P = ("param", pname)
+
+    def is_p(t):
+        return any(r == P for r in _roots(t))
+    for recv, node, kind in _update_events(func, T, cfg):
+        if is_p(recv):
+            return (f"it is changed in place (line "
+                    f"{getattr(node, 'lineno', '?')}, {kind})")
+    for n in walk_own(func.node):
+        if isinstance(n, (ast.Return, ast.Yield)) and n.value is not None:
+            if is_p(T.of(n.value)):
+                return "it is handed out to the caller"
+        if isinstance(n, ast.Assign):
+            for tg in n.targets:
+                if isinstance(tg, (ast.Attribute, ast.Subscript)) and is_p(
+                        T.of(n.value)):
+                    return "it is stored in a longer-lived object"
+    return None
+
+
+def cache_is_harmful(prog, func):
+    """Why caching the results of ``func`` can change a later result, or
+    None when the function is a function of its (hashable) arguments and no
+    caller changes what it returns."""
+    try:
+        du, T, cfg = _analysis(prog, func)
+    except Exception:
+        return "function not analysable"
+    mglob = {f"{m.name}.{g}" for m in prog.modules.values()
+             for g in _mutable_globals(m)}
+    for n in walk_own(func.node):
+        if isinstance(n, ast.Call):
+            t = T.of(n)
+            if t[0] == "call" and (t[1].startswith("numpy.random")
+                                   or t[1].startswith("random.")):
+                return "it draws from a global random generator"
+            if t[0] == "mcall" and t[2] in (
+                    "permutation", "shuffle", "choice", "integers", "random",
+                    "normal", "uniform", "sample", "randint", "rand",
+                    "standard_normal", "spawn"):
+                return (f"it draws from a random generator ({t[2]}): a "
+                        "cached call no longer advances the generator")
+        if isinstance(n, ast.Name) and isinstance(n.ctx, ast.Load):
+            t = T.of(n)
+            if t[0] == "name" and t[1] in mglob:
+                return f"it reads the mutable module object {t[1]}"
+        if isinstance(n, ast.Attribute) and isinstance(
+                n.value, ast.Name) and n.value.id == "self" and isinstance(
+                    n.ctx, ast.Load) and func.cls is not None:
+            return (f"it reads self.{n.attr}, which is not part of the "
+                    "cache key's value")
+    # callers that change the returned object
+    for caller, _call, _kind in prog.callers_of(func.qual):
+        if isinstance(caller.node, ast.Lambda):
+            continue
+        try:
+            _d, cT, ccfg = _analysis(prog, caller)
+        except Exception:
+            continue
+        for recv, node, kind in _update_events(caller, cT, ccfg):
+            for r in _roots(recv):
+                if r[0] in ("call", "mcall") and any(
+                        isinstance(x, tuple) and x and x[0] == "call"
+                        and x[1] == func.qual for x in walk_term(r)):
+                    return (f"{caller.qual} changes the returned object in "
+                            f"place (line {getattr(node, 'lineno', '?')}): "
+                            "the change is seen by every later call")
+    return None
+
+
 def check_no_cross_call_state(ctx, rule, funcs, what):
-    """Fail for every mutable default, cache decorator or module-level cache
-    write in ``funcs`` (list of Func)."""
+    """Report every harmful carrier of cross-call state in ``funcs``."""
     prog = ctx.prog
     n = 0
     for f in funcs:
+        if isinstance(f.node, ast.Lambda):
+            continue
         n += 1
         for name, d in mutable_defaults(f):
-            # only a problem when the body mutates or reads it as state
-            ctx.fail(rule, f, f"mutable default {name}={ast.unparse(d)}",
-                     f"parameter '{name}' has a mutable default that is "
-                     "shared by every call: state left by one "
-                     f"{what} leaks into the next", node=d)
+            why = default_is_state(prog, f, name)
+            if why:
+                ctx.fail(rule, f, f"mutable default {name}={ast.unparse(d)}",
+                         f"parameter '{name}' has a mutable default that is "
+                         f"shared by every call and {why}: state left by "
+                         f"one {what} leaks into the next", node=d)
         for d in cache_decorators(f):
-            ctx.fail(rule, f, f"@{d}",
-                     f"results of {f.name} are cached across calls (@{d}): "
-                     "the cached object is shared between callers, and the "
-                     f"key may not cover everything the {what} depends on",
-                     node=f.node)
+            why = cache_is_harmful(prog, f)
+            if why:
+                ctx.fail(rule, f, f"@{d}",
+                         f"results of {f.name} are cached across calls "
+                         f"(@{d}) although {why}", node=f.node)
         for g, node in module_state_writes(prog, f):
             ctx.fail(rule, f, f"module-level cache {g}",
                      f"{f.name} stores into the module-level object '{g}': "
